@@ -54,6 +54,19 @@ add("C20", "fault_enumeration", "in-process Cloud KMS model with RPC call budget
     "gcpkms.Manager and gcpkms.Signer run against a model KeyManagementService (versions in all states, seven legal AIP-158 paging behaviours, an error at the N-th RPC for every N): wipeout/bootstrap/rotation must finish within a logical RPC budget and leave no enabled/disabled version, select an enabled (or polled pending) version, return only enabled versions; Sign must refuse every single-bit corruption of signature/checksum/flags and every non-PSS-SHA256 option.",
     TB_GO + " The service is a model producing only behaviours the public API contract allows.", "DESIGN.md section 3 C20")
 
+add("C07", "exploration", "resource monitor (panic / thread CPU / allocated bytes, child-process death attribution) over mutated genuine objects at 27 decoder entry points",
+    "Genuine endorsements, attestations in every format, certificate tables, event logs and events are mutated (every truncation, field-aware boundary values for every length/count field, protobuf wire-level edits, removed sub-messages, bit flips, re-encodings, inputs near 1 MiB) and pushed through every relying-party decoder under core.Guard: a panic, a call exceeding 2 s + 1 s/MiB of thread CPU, or allocating more than 64 MiB + 4 KiB per input byte is a violation; fatal allocations kill a child under ulimit -v and are attributed to the case logged before the call.",
+    TB_GO + " CPU budgets use per-thread user time; budgets are 2-3 orders of magnitude above genuine cost (reported as maxima).", "DESIGN.md section 3 C07")
+add("C12", "exploration", "invariant monitor evaluated after every command of generated key-management histories",
+    "Generated histories over {bootstrap, rotate, wipeout ca|keys|all} with CN / serial / timestamp / overwrite / keep-going flags on six key-manager x authority assemblies; after every command the authority is read back like a fresh process and the certificate-profile, lifetime, serial, issued-by-root, only-the-primary-signs, fresh-name, no-clobber and wipeout invariants are evaluated.",
+    TB_GO + " Freshness and signing-ability clauses are scoped to the current epoch (since the last bootstrap or wipeout); keep-going is generated together with overwrite only.", "DESIGN.md section 3 C12")
+add("C13", "exploration", "manifest invariant monitor after every run of real endorse histories, with BFS closure of abstract manifest states",
+    "Real endorse.VirtualFirmware runs (sign + commit) over an in-memory transactional VCS double, a write-through double and localnonvcs: breadth-first closure over abstract store states for a pool of 3 images x 3 candidates x overwrite on/off (+ snapshot runs) until no new state appears, plus random histories over larger pools with scripted commit conflicts and write faults; after every run the manifest must parse, list each path and digest once, every entry's file must be an endorsement signing that digest, the latest run's digest must map to the file it wrote, and without overwrite no existing endorsement file changes.",
+    TB_GO + " The oracle is a pure function over the store before/after a run and does not know the merge rules.", "DESIGN.md section 3 C13")
+add("C18", "exploration", "reference codecs (own offset tables / decoders) + round-trip, strictness, truncation and re-encode monitors over 26 binary structures",
+    "For each structure (EFI GUID, GUID-table entries, SEV/TDX metadata records, SEV-ES reset block, VMSA, PAGE_INFO, PI HOBs, TCG event-log records, SP800-155 events) boundary-biased values are encoded and compared byte for byte with an independent layout model, decoded back, truncated at every length, extended, and given non-zero reserved bytes one at a time through three reader kinds; whatever a decoder accepts must re-encode to the consumed bytes.",
+    TB_GO, "DESIGN.md section 3 C18")
+
 props = [json.loads(l) for l in open(os.path.join(V, 'properties.jsonl'))]
 checks, na = [], []
 for p in props:
